@@ -653,8 +653,20 @@ impl<'a> UserModel<'a> {
         }
 
         self.model.delete_sheet(sheet)?;
+        self.clamp_selected_sheet();
         self.push_diff_list(vec![Diff::DeleteSheet { sheet, old_data }]);
         Ok(())
+    }
+
+    /// After a sheet was removed the selected sheet index may point past the last sheet:
+    /// keep the selection on an existing sheet.
+    pub(super) fn clamp_selected_sheet(&mut self) {
+        let sheet_count = self.model.workbook.worksheets.len() as u32;
+        if let Some(view) = self.model.workbook.views.get_mut(&self.model.view_id) {
+            if view.sheet >= sheet_count {
+                view.sheet = sheet_count.saturating_sub(1);
+            }
+        }
     }
 
     /// Renames a sheet by index
